@@ -19,6 +19,7 @@ import (
 	"github.com/ProtonMail/gluon/imap"
 	"github.com/ProtonMail/gluon/limits"
 	"github.com/ProtonMail/gluon/rfc822"
+	"github.com/ProtonMail/gluon/store"
 
 	"verifharness/hconn"
 	"verifharness/imapc"
@@ -50,6 +51,8 @@ type Op struct {
 	// connupdate: the connector sends MessageUpdated for the message at Name / UIDs[0], announcing the mailboxes Names and
 	// the flags Flags; Replace = with another literal (Lit), otherwise with the literal the message has
 	Replace bool `json:"replace,omitempty"`
+	// append with Remote "fail": the local message store refuses the write of the recovery copy (needs Config.Store)
+	StoreFails bool `json:"store_fails,omitempty"`
 	Sess     int        `json:"sess,omitempty"`
 }
 
@@ -57,10 +60,14 @@ func (o Op) String() string {
 	fl := ""
 	switch o.Kind {
 	case "append":
-		if o.Flags != "" {
-			return fmt.Sprintf("append(%s,(%s),L%d,%s)", o.Name, o.Flags, o.Lit, o.Remote)
+		sf := ""
+		if o.StoreFails {
+			sf = ",local-store-write-fails"
 		}
-		return fmt.Sprintf("append(%s,L%d,%s)", o.Name, o.Lit, o.Remote)
+		if o.Flags != "" {
+			return fmt.Sprintf("append(%s,(%s),L%d,%s%s)", o.Name, o.Flags, o.Lit, o.Remote, sf)
+		}
+		return fmt.Sprintf("append(%s,L%d,%s%s)", o.Name, o.Lit, o.Remote, sf)
 	case "copy", "move":
 		if !o.CreateOK {
 			fl += ",create-fails"
@@ -123,6 +130,8 @@ type Obs struct {
 	Holders []string `json:"holders,omitempty"`
 	OldLit  int      `json:"old_lit,omitempty"`
 	Skipped bool     `json:"skipped,omitempty"`
+	// append with StoreFails: the injected store failure was hit (the recovery copy could not be written)
+	StoreFailed bool `json:"store_failed,omitempty"`
 }
 
 type Row struct {
@@ -365,6 +374,8 @@ type Config struct {
 	Dedup bool
 	// Epoch offset in seconds: the generator's epoch start is now - EpochAgo.
 	EpochAgo int
+	// Store: message store whose writes can be made to fail (nil = the plain on-disk store); needed for Op.StoreFails
+	Store *FailingStore
 }
 
 type World struct {
@@ -427,7 +438,11 @@ func NewWorld(cfg Config, lits *Literals) (*World, error) {
 }
 
 func (w *World) start(dir string) error {
-	s, err := srv.Start(srv.Options{Dir: dir, Limits: w.limits(), DB: w.Cfg.DB, UIDValidity: w.Gen, KeepDir: true,
+	var sb store.Builder
+	if w.Cfg.Store != nil {
+		sb = w.Cfg.Store
+	}
+	s, err := srv.Start(srv.Options{Dir: dir, Limits: w.limits(), DB: w.Cfg.DB, UIDValidity: w.Gen, KeepDir: true, StoreBuilder: sb,
 		Users: []srv.User{{Names: []string{"user"}, Pass: "pass", Conn: w.Conn}}})
 	if err != nil {
 		return err
@@ -644,8 +659,17 @@ func (w *World) Do(o Op) (Obs, error) {
 		case "size":
 			w.Conn.SetFailNext("CreateMessage", connector.ErrMessageSizeExceedsLimits)
 		}
+		armed := o.StoreFails && o.Remote == "fail" && w.Cfg.Store != nil
+		if armed {
+			w.Cfg.Store.FailSets(1)
+		}
 		r, err := c.Append(o.Name, o.Flags, w.Lits.Bytes[o.Lit])
 		ob, err := obsOf(r, err)
+		if armed && w.Cfg.Store.FailSets(0) == 0 {
+			// the write of the recovery copy failed: for the model nothing happened (local storage faults are outside it)
+			ob.StoreFailed = true
+			ob.ModelOps = []Op{}
+		}
 		if err != nil {
 			return ob, err
 		}
